@@ -40,7 +40,7 @@ Next ==
   /\ l < Len(Trace) /\ l' = l + 1
   /\ LET e == Trace[l'] IN
      CASE e.e = "param" ->
-            LET c == e.case IN
+           (LET c == e.case IN
             CASE c.fam = "h264" ->
                    /\ Ok(e.ok, e, "C15:valid-h264-sps-rejected")
                    /\ Ok(~e.ok \/ (e.w = H264W(c) /\ e.h = H264H(c)), e, "C15:h264-width-height")
@@ -58,7 +58,7 @@ Next ==
               [] c.fam = "asc" ->
                    /\ Ok(e.ok, e, "C15:valid-audio-specific-config-rejected")
                    /\ Ok(~e.ok \/ (e.rate = AscRate(c) /\ e.ch = AscCh(c)), e, "C15:aac-sample-rate-channels")
-                   /\ Ok(e.sdp_rate = AscRate(c) /\ e.sdp_ch = AscCh(c), e, "C15:aac-stream-metadata-from-sdp")
+                   /\ Ok(e.sdp_rate = AscRate(c) /\ e.sdp_ch = AscCh(c), e, "C15:aac-stream-metadata-from-sdp"))
        [] e.e = "total" ->
             /\ Ok(e.outcome \in {"ok", "error"}, e, "C15:parser-panics-or-loops-on-arbitrary-bytes")
             /\ Ok(e.usable, e, "C15:sdp-with-damaged-parameter-sets-yields-no-usable-stream")
